@@ -39,6 +39,16 @@ theorem mapE_getElem? {α β} {f : α → Except Err β} : ∀ {l : List α} {bs
     | zero => simp at hi; subst hi; exact ⟨b, by simp, hb⟩
     | succ i => simpa using mapE_getElem? ht i a (by simpa using hi)
 
+theorem mapE_mem {α β} {f : α → Except Err β} : ∀ {l : List α} {bs : List β},
+    mapE f l = .ok bs → ∀ b ∈ bs, ∃ a ∈ l, f a = .ok b
+  | [], bs, h, b, hb => by simp [mapE] at h; subst h; simp at hb
+  | x :: t, bs, h, b, hb => by
+    obtain ⟨b0, bt, hb0, ht, rfl⟩ := mapE_ok_cons h
+    rcases List.mem_cons.mp hb with rfl | hb
+    · exact ⟨x, by simp, hb0⟩
+    · obtain ⟨a, ha, hfa⟩ := mapE_mem ht b hb
+      exact ⟨a, by simp [ha], hfa⟩
+
 theorem mapE_total {α β} {f : α → Except Err β} : ∀ (l : List α),
     (∀ a ∈ l, ∃ b, f a = .ok b) → ∃ bs, mapE f l = .ok bs
   | [], _ => ⟨[], rfl⟩
